@@ -26,8 +26,14 @@ RD_OPS = (11, 12, 13)
 # ------------------------------------------------------------------------------------------------------------
 # builds
 
+def shard_filter(srcs):
+    """VERIF_SHARDS=tu_a,tu_b restricts a run to some shards (replays, mutation experiments); default: all"""
+    only = [x for x in (os.environ.get("VERIF_SHARDS") or "").split(",") if x]
+    return [s for s in srcs if not only or os.path.basename(s)[:-4] in only]
+
+
 def shard_sources():
-    return sorted(glob.glob(os.path.join(HDIR, "tu_*.cpp")))
+    return shard_filter(sorted(glob.glob(os.path.join(HDIR, "tu_*.cpp"))))
 
 
 def hdr_hash(dirs=(HDIR,)):
@@ -132,8 +138,14 @@ def gen_cfg(rng, v):
             return [v["idx"], hk, 1, 1]                 # head/array bits raised to the minimums 4 / 2
         return [v["idx"], hk, rng.choice([4, 5, 6]), rng.choice([2, 3, 4])]
     hk = rng.below(8)
-    if fam == "split" or fam == "split_static":
+    if fam == "split":
         return [v["idx"], hk, rng.choice([2, 4, 8, 8, 16]), 1 if rng.chance(4, 5) else 2]
+    if fam == "split_static":
+        # static_bucket_table( nItemCount, nLoadFactor ) has capacity ceil2( nItemCount / nLoadFactor ); SplitListSet always starts
+        # with 2 buckets, so capacity 1 (e.g. (2,2)) is an input the code does not reject: bucket(1) is out of the table and
+        # init_bucket spins forever on the exhausted aux-node pool.  Reported; not generated.
+        lf = 1 if rng.chance(4, 5) else 2
+        return [v["idx"], hk, rng.choice([2, 4, 8, 8, 16]) * lf, lf]
     return [v["idx"], hk, rng.choice([1, 2, 4, 8]), rng.choice([1, 1, 2])]
 
 
@@ -192,6 +204,42 @@ def gen_case(rng, v, cid):
     unlink_mode = bool(v["opmask"] & (1 << 9)) and rng.chance(1, 2)
     return {"id": cid, "cfg": gen_cfg(rng, v), "threads": gen_program(rng, v, nthreads, unlink_mode),
             "sched": gen_sched(rng, nthreads, rng.below(4))}
+
+
+FHASH = [
+    [0, 1, 2, 3, 4, 5],                                             # different head slots
+    [k << 28 | 0x0ABCDEF for k in range(6)],                        # 28 shared low bits: deepest expansion (head 4 + 12 x 2 bits)
+    [k << 6 | 0x15 for k in range(6)],                              # same head slot, split one level down
+    [(k & 1) << 30 | (k >> 1) << 10 | 0x3FF for k in range(6)],
+    [k << 4 for k in range(6)],
+    [(k * 0x9E3779B1) & 0xFFFFFFFF for k in range(6)],
+    [(k << 29 | k) & 0xFFFFFFFF for k in range(6)],
+]
+
+
+def gen_step_feldman(rng, n):
+    """step-correspondence cases for LV.Model.Feldman: cfg = [loop fuel, head bits, array bits, hashes of keys 0..5]"""
+    cases = []
+    for i in range(n):
+        nthreads = 2 if rng.chance(2, 3) else 3
+        hb, ab = (4, 2) if rng.chance(3, 4) else rng.choice([(4, 4), (6, 2), (8, 4), (5, 3)])
+        hs = rng.choice(FHASH)
+        nkeys = 2 + rng.below(4)
+        keys = []
+        while len(keys) < nkeys:
+            k = rng.below(6)
+            if k not in keys:
+                keys.append(k)
+        threads = []
+        for t in range(nthreads):
+            ops = []
+            for _ in range(1 + rng.below(4)):
+                r = rng.below(100)
+                code = 1 if r < 40 else (3 if r < 55 else (4 if r < 62 else (7 if r < 85 else 13)))
+                ops.append([code, rng.choice(keys)])
+            threads.append(ops)
+        cases.append({"id": "f%d" % i, "cfg": [60, hb, ab] + hs, "threads": threads, "sched": gen_sched(rng, nthreads, rng.below(4))})
+    return cases
 
 
 # ------------------------------------------------------------------------------------------------------------
